@@ -165,7 +165,7 @@ def gen_case(seed: int, kind='exp', opts=None):
         case['judge_only'] = True
     if kind == 'exprl':
         pol['cmds'] = ['reload', 'reload', 'reload', 'reload', 'hold', 'release', 'pause', 'resume']
-        pol['p_cmd'] = rng.choice([0.1, 0.15, 0.22])
+        pol['p_cmd'] = rng.choice([0.15, 0.22, 0.3])
         pol['restarts'] = 0
         case['dt']['now0'] = rng.choice([(icp - 1) * UNIT, icp * UNIT, icp * UNIT + 1800])
         case['variants'] = reload_variants(rng, flow, exp_full, wf['tasks'])
